@@ -6,9 +6,42 @@ import (
 	"go/ast"
 	"go/printer"
 	"go/token"
+	"os/exec"
 	"strconv"
 	"strings"
 )
+
+// c15goOut runs the go tool (in dir) and returns its trimmed output.
+func c15goOut(dir string, args ...string) (string, error) {
+	cmd := exec.Command("go", args...)
+	cmd.Dir = dir
+	out, err := cmd.Output()
+	if err != nil {
+		return "", fmt.Errorf("go %s: %v", strings.Join(args, " "), err)
+	}
+	return strings.TrimSpace(string(out)), nil
+}
+
+// c15bodies emits, for every {recv, func, leanName}, the top-level statements of the function body as a
+// Lean string list.
+func c15bodies(sb *strings.Builder, root, rel string, fns [][3]string) error {
+	fset, f, err := ParseFile(root, rel)
+	if err != nil {
+		return err
+	}
+	for _, fn := range fns {
+		fd := FindFunc(f, fn[0], fn[1])
+		if fd == nil || fd.Body == nil {
+			return fmt.Errorf("%s: %s.%s not found", rel, fn[0], fn[1])
+		}
+		var ss []string
+		for _, st := range fd.Body.List {
+			ss = append(ss, c15render(fset, st))
+		}
+		fmt.Fprintf(sb, "def %s : List String := %s\n", fn[2], LeanStrList(ss))
+	}
+	return nil
+}
 
 // C15: table footer constants/layout (kv/table/constants.go, builder.go Close, reader.go
 // initialize), encoding.Uint32MinWidth as a Lean function, and the source text of the few
@@ -600,6 +633,43 @@ func genC15(repo string) (string, error) {
 			ss = append(ss, s)
 		}
 		fmt.Fprintf(&sb, "def %s : List String := %s\n", fn[2], LeanStrList(ss))
+	}
+
+	// ---- Go's container/heap as compiled into the harness (GOROOT of the local toolchain): the bodies that
+	// Model/MergedIter.lean transcribes (up, down, Init, Fix, Pop, Push)
+	goroot, err := c15goOut(repo, "env", "GOROOT")
+	if err != nil {
+		return "", err
+	}
+	fmt.Fprintf(&sb, "\n/-- container/heap (GOROOT/src/container/heap/heap.go), statement for statement -/\n")
+	if err := c15bodies(&sb, goroot, "src/container/heap/heap.go", [][3]string{
+		{"", "Init", "goHeapInitStmts"}, {"", "Push", "goHeapPushStmts"}, {"", "Pop", "goHeapPopStmts"},
+		{"", "Fix", "goHeapFixStmts"}, {"", "up", "goHeapUpStmts"}, {"", "down", "goHeapDownStmts"},
+	}); err != nil {
+		return "", err
+	}
+
+	// ---- the roaring module lindb is built with (go.mod's version, module cache): Bitmap.Rank / Contains and
+	// the per-container rank functions Model/C15Roaring.lean follows
+	rdir, err := c15goOut(repo, "list", "-m", "-f", "{{.Dir}}", "github.com/lindb/roaring")
+	if err != nil {
+		return "", err
+	}
+	rver, err := c15goOut(repo, "list", "-m", "-f", "{{.Version}}", "github.com/lindb/roaring")
+	if err != nil {
+		return "", err
+	}
+	fmt.Fprintf(&sb, "\n/-- github.com/lindb/roaring as required by go.mod -/\ndef roaringVersion : String := %q\n", rver)
+	if err := c15bodies(&sb, rdir, "roaring.go", [][3]string{
+		{"Bitmap", "Rank", "roaringRankStmts"}, {"Bitmap", "Contains", "roaringContainsStmts"},
+	}); err != nil {
+		return "", err
+	}
+	if err := c15bodies(&sb, rdir, "arraycontainer.go", [][3]string{{"arrayContainer", "rank", "roaringArrayRankStmts"}}); err != nil {
+		return "", err
+	}
+	if err := c15bodies(&sb, rdir, "runcontainer.go", [][3]string{{"runContainer16", "rank", "roaringRunRankStmts"}}); err != nil {
+		return "", err
 	}
 	return sb.String(), nil
 }
